@@ -586,6 +586,7 @@ class Origins:
         self._bind_stmt: dict[tuple, ast.AST] = {}
         self._aug_cache: dict[int, ast.BinOp] = {}
         self._had_killer = False
+        self._keep_identifiers = False  # set by _user_regex: `<filter>.identifier` is a leaf, its class decides what it is
 
     # -- bindings of a local name: list of ("value", expr) | ("elem", iterable, pos) | ("opaque", node)
     def _bindings(self, f: FuncInfo, name: str, use: ast.AST | None = None) -> list[tuple]:
@@ -760,7 +761,9 @@ class Origins:
                     for m, v in vals:
                         out += self.value(m, v, d, seen, pos)
                     return out
-            got = self._attribute(f, e, d, seen, pos)
+            # (asked where a pattern comes from, the identifier of a filter object is the answer - not what was once passed
+            #  to the constructors of its class)
+            got = None if (self._keep_identifiers and e.attr == "identifier") else self._attribute(f, e, d, seen, pos)
             if got is not None:
                 return got
             c = _attr_constant(self.repo, self.T, f, e)
@@ -1078,9 +1081,14 @@ class Origins:
                     if pos and pos[0] == 1:
                         return self.elements(f, c.args[0], d, seen, pos[1:])
                     return [(f, c, "opaque")]
-                if nm == "zip" and c.args:
+                if nm in ("zip", "product", "zip_longest") and c.args and not (nm == "product" and any(k.arg == "repeat" for k in c.keywords)):
+                    # position i of every element comes from the i-th iterable (pairs of zip, the cartesian product alike)
                     if pos and pos[0] < len(c.args):
                         return self.elements(f, c.args[pos[0]], d, seen, pos[1:])
+                    return [(f, c, "opaque")]
+                if nm in ("combinations", "permutations", "pairwise", "combinations_with_replacement") and c.args:
+                    if pos:  # every position holds an element of the one iterable
+                        return self.elements(f, c.args[0], d, seen, pos[1:])
                     return [(f, c, "opaque")]
                 if nm == "filter" and len(c.args) == 2:
                     return self.elements(f, c.args[1], d, seen, pos)
@@ -1863,6 +1871,16 @@ def _is_regex_filter(repo: Repo, g: FuncInfo, e: ast.expr, at: ast.AST, depth: i
     T = types_of(repo)
     if depth > 7:
         return False
+    if isinstance(e, ast.Name) and not isinstance(g.node, ast.Lambda) and e.id not in g.param_names and not _flag_holds(g, at, norm(e)):
+        # an element of a list whose filling can be followed: the data decides, not a cast / an annotation
+        try:
+            for kind, src, pos_ in origins(repo)._bindings(g, e.id, e):
+                if kind == "elem" and _bucket_verdict(repo, g, src, 0, tuple(pos_)) is False:
+                    return False
+        except RecursionError:
+            raise
+        except Exception:  # noqa: BLE001
+            pass
     if _regex_typed(T, g, e) or _flag_holds(g, at, norm(e)):
         return True
     if isinstance(e, ast.Call) and _call_name(e) == "cast" and len(e.args) == 2:
@@ -1894,11 +1912,88 @@ def _is_regex_filter(repo: Repo, g: FuncInfo, e: ast.expr, at: ast.AST, depth: i
     return True
 
 
+def _bucket_verdict(repo: Repo, g: FuncInfo, c: ast.expr, depth: int = 0, pos: tuple = ()) -> bool | None:
+    """`c` leads (through locals, tuple positions, helper returns, casts) to one list of an indexed pair / tuple of lists that is
+    filled by `buckets[<index>].append(x)`: True / False - every element appended to that list was selected by the public flag
+    `identifier_is_regex` (a constant index needs a regex filter by its own provenance, `1 if x.identifier_is_regex else 0` needs
+    the polarity that fits the list) - decided by the data, whatever a cast or an annotation says. None: not such a list."""
+    if depth > 6 or isinstance(g.node, ast.Lambda):
+        return None
+    if isinstance(c, ast.Call) and _call_name(c) == "cast" and len(c.args) == 2:
+        return _bucket_verdict(repo, g, c.args[1], depth + 1, pos)
+    if isinstance(c, ast.Tuple) and pos and pos[0] < len(c.elts):
+        return _bucket_verdict(repo, g, c.elts[pos[0]], depth + 1, pos[1:])
+    if isinstance(c, ast.Call) and not pos or isinstance(c, ast.Call):
+        cs = origins(repo)._callees(g, c) if isinstance(c, ast.Call) else []
+        if len(cs) == 1 and not isinstance(cs[0].node, ast.Lambda):
+            vs = [_bucket_verdict(repo, cs[0], r, depth + 1, pos) for r in Origins._returns(cs[0])]
+            if vs and all(v is not None for v in vs):
+                return all(vs)
+        return None
+    if isinstance(c, ast.Name) and c.id not in g.param_names:
+        binds = origins(repo)._bindings(g, c.id, c)
+        if len(binds) == 1 and binds[0][0] == "value":
+            return _bucket_verdict(repo, g, binds[0][1], depth + 1, tuple(binds[0][2]) + pos)
+        return None
+    if isinstance(c, ast.Subscript) and not pos and isinstance(c.value, ast.Name) and isinstance(c.slice, ast.Constant) and isinstance(c.slice.value, int) and not isinstance(c.slice.value, bool):
+        B, k = c.value.id, c.slice.value
+        d_ = local_defs(repo, g).get(B)
+        if d_ is None and B not in g.param_names:  # (an annotated assignment)
+            anns = [a for a in own_nodes(g.node) if isinstance(a, ast.AnnAssign) and a.value is not None and isinstance(a.target, ast.Name) and a.target.id == B]
+            stores_ = [x for x in own_nodes(g.node) if isinstance(x, ast.Name) and x.id == B and isinstance(x.ctx, ast.Store)]
+            d_ = anns[0].value if len(anns) == 1 and len(stores_) == 1 else None
+        if not (isinstance(d_, (ast.Tuple, ast.List)) and d_.elts and all(isinstance(x, ast.List) and not x.elts for x in d_.elts) and 0 <= k < len(d_.elts)):
+            return None
+        seen_append = False
+        for n in own_nodes(g.node):
+            if isinstance(n, ast.Name) and n.id == B and isinstance(n.ctx, ast.Load):
+                sub = parent(n)
+                if not (isinstance(sub, ast.Subscript) and sub.value is n):
+                    return None  # the pair is handed on as a whole
+                att = parent(sub)
+                if isinstance(att, ast.Attribute) and isinstance(parent(att), ast.Call) and parent(att).func is att:
+                    call = parent(att)
+                    if att.attr != "append" or len(call.args) != 1:
+                        return None
+                    x, idx = call.args[0], sub.slice
+                    if isinstance(idx, ast.Constant) and isinstance(idx.value, int):
+                        if idx.value == k:
+                            seen_append = True
+                            if not _is_regex_filter(repo, g, x, call, depth + 1):
+                                return False
+                    elif isinstance(idx, ast.IfExp) and isinstance(idx.body, ast.Constant) and isinstance(idx.orelse, ast.Constant):
+                        t = idx.test
+                        neg = isinstance(t, ast.UnaryOp) and isinstance(t.op, ast.Not)
+                        core = t.operand if neg else t
+                        is_flag = isinstance(core, ast.Attribute) and core.attr == REGEX_FLAG and norm(core.value) == norm(x)
+                        when_flag, otherwise = (idx.orelse.value, idx.body.value) if neg else (idx.body.value, idx.orelse.value)
+                        if k in (when_flag, otherwise):
+                            seen_append = True
+                            if not is_flag or otherwise == k:
+                                return False  # elements without the flag (or chosen by something else) land in this list
+                    elif isinstance(idx, ast.Attribute) and idx.attr == REGEX_FLAG and norm(idx.value) == norm(x):
+                        seen_append = True  # buckets[x.identifier_is_regex]: index True == 1
+                        if k != 1:
+                            return False
+                    else:
+                        return None
+        return True if seen_append else None
+    return None
+
+
 def _all_regex_filters(repo: Repo, g: FuncInfo, c: ast.expr, depth: int = 0, pos: tuple = ()) -> bool:
     """Every element of the collection `c` is a regex filter."""
     T = types_of(repo)
     if depth > 7:
         return False
+    try:
+        bv = _bucket_verdict(repo, g, c, 0, pos)  # (where the data can be followed it decides, not a cast / an annotation)
+    except RecursionError:
+        raise
+    except Exception:  # noqa: BLE001
+        bv = None
+    if bv is not None:
+        return bv
     if not pos and _regex_typed(T, g, c, elements=True):
         return True
     if pos:
@@ -1964,26 +2059,32 @@ def _user_regex(repo: Repo, f: FuncInfo, pat: ast.expr) -> bool:
     the public flag `identifier_is_regex` that selected them: a user-supplied regex, matched against names by design."""
     if isinstance(pat, (ast.JoinedStr, ast.BinOp)):
         return False
-    work = list(origins(repo).value(f, pat))
-    if not work:
-        return False
-    done = 0
-    while work:
-        g, e, kind = work.pop()
-        done += 1
-        if kind != "value" or done > 60:
+    O = origins(repo)
+    before = O._keep_identifiers
+    O._keep_identifiers = True
+    try:
+        work = list(O.value(f, pat))
+        if not work:
             return False
-        if isinstance(e, ast.Call) and (repo.resolve_name(g.module, e.func) or "") == "re.compile" and e.args:
-            sub = origins(repo).value(g, e.args[0])
-            if not sub:
+        done = 0
+        while work:
+            g, e, kind = work.pop()
+            done += 1
+            if kind != "value" or done > 60:
                 return False
-            work += sub
-            continue
-        if not (isinstance(e, ast.Attribute) and e.attr == "identifier"):
-            return False
-        if not _is_regex_filter(repo, g, e.value, e):
-            return False
-    return True
+            if isinstance(e, ast.Call) and (repo.resolve_name(g.module, e.func) or "") == "re.compile" and e.args:
+                sub = O.value(g, e.args[0])
+                if not sub:
+                    return False
+                work += sub
+                continue
+            if not (isinstance(e, ast.Attribute) and e.attr == "identifier"):
+                return False
+            if not _is_regex_filter(repo, g, e.value, e):
+                return False
+        return True
+    finally:
+        O._keep_identifiers = before
 
 
 def _pattern_pieces(repo: Repo, f: FuncInfo, pat: ast.expr, depth: int = 0) -> tuple[bool, bool] | None:
@@ -3993,6 +4094,65 @@ def _remainder_only_examined(repo: Repo, f: FuncInfo, n: ast.AST) -> bool:
     return dot_test
 
 
+def _element_selected_by_helper(repo: Repo, f: FuncInfo, use: ast.AST, hay_e: ast.Name, other: str) -> bool:
+    """`hay` is the variable of a loop / comprehension over `helper(.., other, ..)` and every value the helper returns is a
+    comprehension (or filter) over candidates whose conditions establish `element == param or element.startswith(param + ".")`
+    for the parameter that receives `other`."""
+    from core.guards import f_and, f_or, implies, to_formula
+
+    from .common import copy_prop
+
+    lb = _loop_binding(f, hay_e.id, use)
+    if lb is None or not isinstance(lb[0], ast.Name):
+        return False
+    it = lb[1]
+    for _ in range(3):
+        if isinstance(it, ast.Name):
+            it = local_defs(repo, f).get(it.id)
+        elif isinstance(it, ast.Call) and isinstance(it.func, ast.Name) and _call_name(it) in ("sorted", "list", "tuple", "set", "reversed", "iter", "frozenset") and it.args:
+            it = it.args[0]
+        else:
+            break
+    if not isinstance(it, ast.Call):
+        return False
+    cs = origins(repo)._callees(f, it)
+    if len(cs) != 1 or isinstance(cs[0].node, ast.Lambda):
+        return False
+    g = cs[0]
+    pos_ = _positional(g)
+    op = next((pos_[i] for i, a in enumerate(it.args) if i < len(pos_) and norm(a) == other), None) or next((k.arg for k in it.keywords if norm(k.value) == other), None)
+    if op is None and isinstance(it.func, ast.Attribute) and pos_ and pos_[0] in ("self", "cls"):
+        shifted = pos_[1:]
+        op = next((shifted[i] for i, a in enumerate(it.args) if i < len(shifted) and norm(a) == other), None)
+    if op is None or any(isinstance(x, (ast.Yield, ast.YieldFrom)) for x in own_nodes(g.node)):
+        return False
+    if origins(repo)._bindings(g, op):
+        return False  # the parameter is re-bound inside the helper
+    rets = Origins._returns(g)
+    if not rets:
+        return False
+    for r in rets:
+        for _ in range(3):
+            if isinstance(r, ast.Name):
+                r = local_defs(repo, g).get(r.id)
+            elif isinstance(r, ast.Call) and isinstance(r.func, ast.Name) and _call_name(r) in ("sorted", "list", "tuple", "set", "frozenset") and r.args:
+                r = r.args[0]
+            else:
+                break
+        if isinstance(r, (ast.List, ast.Tuple, ast.Set)) and not r.elts:
+            continue
+        if not (isinstance(r, (ast.ListComp, ast.SetComp, ast.GeneratorExp)) and len(r.generators) == 1 and isinstance(r.elt, ast.Name) and isinstance(r.generators[0].target, ast.Name) and r.generators[0].target.id == r.elt.id and r.generators[0].ifs):
+            return False
+        facts = f_and([to_formula(c, copy_prop(g)) for c in r.generators[0].ifs])
+        safe_a, _raw = _relation_atoms(repo, g, facts, r.elt.id, {op})
+        try:
+            if not (safe_a and implies(facts, f_or(safe_a))):
+                return False
+        except AnalysisError:
+            return False
+    return True
+
+
 def _slice_by_len(repo: Repo, f: FuncInfo, n: ast.AST, other_e: ast.expr, boundary_funcs: set[str], depth: int = 0, hay_e: ast.expr | None = None, relation_only: bool = False) -> tuple[str, str]:
     """Verdict for removing the first len(other) characters of the name `hay` at node `n` (`hay[len(other):]`, `hay.removeprefix(other)`).
 
@@ -4086,6 +4246,16 @@ def _slice_by_len(repo: Repo, f: FuncInfo, n: ast.AST, other_e: ast.expr, bounda
                     verdicts.append("unknown")
             if verdicts and all(v == "safe" for v in verdicts):
                 return "safe", "every caller establishes, by a relation predicate of the same object, that the argument is the name or one of its ancestors"
+    # the name is an element of what a helper selected for the other string: `for m in self._submodules_including(p): m[len(p):]`
+    # with `return [m for m in names if m == p or m.startswith(p + ".")]`
+    if depth < 2 and isinstance(hay_e, ast.Name) and not isinstance(f.node, ast.Lambda):
+        try:
+            if _element_selected_by_helper(repo, f, n, hay_e, other):
+                return "safe", "the name is an element of a collection that a helper filtered by a boundary-safe test against the other string"
+        except RecursionError:
+            raise
+        except Exception:  # noqa: BLE001
+            pass
     # no string test at all, and the name was reached along graph edges: `for m in walk_of_successors(p): label(m[len(p):])`
     if depth == 0:
         try:
@@ -4794,7 +4964,14 @@ def name_list_order(repo: Repo, f: FuncInfo, e: ast.expr, depth: int = 0) -> str
         return None
     if isinstance(e, ast.Name):
         if e.id in f.param_names:
-            return None
+            # a parameter: ordered as what every call site passes (unless the function re-binds or sorts it itself)
+            if origins(repo)._bindings(f, e.id) or any(isinstance(c, ast.Call) and isinstance(c.func, ast.Attribute) and c.func.attr == "sort" and isinstance(c.func.value, ast.Name) and c.func.value.id == e.id for c in own_nodes(f.node)):
+                return None
+            args = _callers_args(repo, f, e.id)
+            if not args or any(isinstance(a, ast.Starred) for _h, a in args):
+                return None
+            kinds = {name_list_order(repo, h, a, depth + 1) for h, a in args}
+            return kinds.pop() if len(kinds) == 1 else None
         binds = origins(repo)._bindings(f, e.id)
         vals = [src for kind, src, p_ in binds if kind == "value" and not p_]
         if not binds or len(vals) != len(binds):
